@@ -13,7 +13,8 @@ THEOREMS = [
 ]
 
 OPS4 = ["==", "!=", "in", "not in"]
-OPS8 = OPS4 + [">", ">=", "<", "<="]
+OPS8 = OPS4 + [">", ">=", "<", "<=", "contains", "not contains"]
+OPS_TABLE = OPS4 + ["contains", "not contains", "<"]
 # closed under: equal, substring, superstring, disjoint, empty string
 POOL_QUICK = ["", "a", "b", "ab", "abc", "bc", "linux", "lin", "linux darwin", "darwin", "win32", "x"]
 POOL_EXTRA = ["nux", "linux2", "Linux", " ", "a b", "b a", "cpython", "python", "py", "cp", "1.0", "1.0.0"]
@@ -72,10 +73,10 @@ def run(run: core.Run) -> None:
             run.fail(core.Failure(f"in-empty|{c}", f"{c!r} in EmptySpecifier() is True", {"op": "in-empty", "candidate": c}))
         if c not in AnySpecifier():
             run.fail(core.Failure(f"in-any|{c}", f"{c!r} in AnySpecifier() is False", {"op": "in-any", "candidate": c}))
-    for o1 in OPS4:
+    for o1 in OPS_TABLE:
         for v1 in pool:
             a = GenericSpecifier(o1, v1)
-            for o2 in OPS4:
+            for o2 in OPS_TABLE:
                 for v2 in pool:
                     b = GenericSpecifier(o2, v2)
                     nontriv = (o1, v1) != (o2, v2)
